@@ -514,6 +514,9 @@ impl<T: Send> Receiver<T> {
   /// - `Err(RecvErrorTimeout::Timeout)` if the timeout is reached.
   /// - `Err(RecvErrorTimeout::Disconnected)` if the channel is disconnected.
   pub fn recv_timeout(&self, timeout: std::time::Duration) -> Result<T, RecvErrorTimeout> {
+    if self.closed.load(Ordering::Relaxed) {
+      return Err(RecvErrorTimeout::Disconnected);
+    }
     sync_impl::recv_timeout_sync(self, timeout)
   }
 
